@@ -150,29 +150,29 @@ pub fn c20_case(c: &DbCase) -> CaseResult {
             let mut evm = Evm::builder().with_db(reference.clone()).with_spec_id(spec).with_env(Box::new(make_env(spec, &block, &tx))).build();
             if let Ok(rs) = evm.transact() {
                 apply_state(&mut reference.world, &rs.state, clear);
-                // caller contract of State::commit ("All accounts should be present inside cache"):
-                // whatever an execution output mentions was loaded through the same database first
-                fn preload<DB: Database>(db: &mut DB, st: &revm::primitives::EvmState)
-                where
-                    DB::Error: std::fmt::Debug,
-                {
-                    let mut addrs: Vec<_> = st.keys().copied().collect();
-                    addrs.sort();
-                    for a in addrs {
-                        let _ = db.basic(a).unwrap();
-                        let mut keys: Vec<_> = st[&a].storage.keys().copied().collect();
-                        keys.sort();
-                        for k in keys {
-                            let _ = db.storage(a, k).unwrap();
+                // every stateful wrapper executes the transaction itself and commits its own output (what a
+                // client does; an output produced over another database may lack inline code the wrapper
+                // only holds in its cache, and State::commit requires the accounts to be loaded through it)
+                macro_rules! through {
+                    ($db:expr, $name:expr) => {{
+                        let out = {
+                            let mut e = Evm::builder().with_db(&mut $db).with_spec_id(spec).with_env(Box::new(make_env(spec, &block, &tx))).build();
+                            e.transact().map_err(|e| format!("{e:?}"))
+                        };
+                        match out {
+                            Ok(r2) => {
+                                if r2.result != rs.result {
+                                    return Err(vec![Failure::new(format!("C20|{}|execution-result", $name), format!("op {i}: transaction executed through {} gave {:?}, over the plain data {:?}", $name, r2.result, rs.result))]);
+                                }
+                                $db.commit(r2.state);
+                            }
+                            Err(e) => return Err(vec![Failure::new(format!("C20|{}|execution-result", $name), format!("op {i}: transaction accepted over the plain data was rejected through {}: {e}", $name))]),
                         }
-                    }
+                    }};
                 }
-                preload(&mut cache, &rs.state);
-                preload(&mut state, &rs.state);
-                preload(&mut state_plain, &rs.state);
-                cache.commit(rs.state.clone());
-                state.commit(rs.state.clone());
-                state_plain.commit(rs.state);
+                through!(cache, "CacheDB");
+                through!(state, "State+bundle");
+                through!(state_plain, "State");
                 committed = true;
                 labels.insert("commit");
             }
